@@ -4,7 +4,7 @@ C07 — property theorems.
 Statement of the property (full strength):
     ∀ D T (h : List OpO) (p : Probe), runProbeNew D T (runO D h s₀) p = freshResult D T p
     ∀ D T h p e, (runO D h s₀).execs[e]? has backend p.b → runProbeOn D T (runO D h s₀) p e = freshResult D T p
-It is FALSE of the code as it stands (ten `leak_counterexample_*` theorems below, each replayed on
+It is FALSE of the code as it stands (eleven `leak_counterexample_*` theorems below, each replayed on
 the real code and listed in known_findings.jsonl).  What is proved is the statement for every
 history all of whose operations are benign for the probe (`benignNew`, `benignOn`: decidable, the
 excluded clauses are exactly the counterexample classes), for every translator function `T` and
@@ -510,6 +510,24 @@ theorem reset_restores (D : Defaults) (o : View → TRes) (s : HState) (e : Nat)
     · show (s.execs.set e _)[e]? = _
       rw [getElem?_set_self' _ _ _ _ he, hst]; rfl
     · intro e' hne; exact getElem?_set_ne' _ _ _ _ hne
+
+/-- **…hence the next query on that executor is translated as in a fresh process.**  After a
+translation that ended `ok` — in ANY earlier state — a probe of the executor's backend on the same
+executor gives the fresh result, provided only that no enum is defined below a name it resolves and
+the executor has not found extended metadata of a kind the caller asks for (the two things
+`reset()` does not restore). -/
+theorem reset_restores_result (D : Defaults) (T : Translator) (o : View → TRes) (s : HState) (e : Nat) (q : Query)
+    (md : List MdItem) (ex : Exec) (f : String) (p : Probe)
+    (he : s.execs[e]? = some ex) (hok : (translateWith D o s e q md).2 = .ok f) (hb : ex.backend = p.b)
+    (hns : nsClean p (translateWith D o s e q md).1 = true)
+    (hfound : ∀ x ∈ ex.found ++ xitemsOf (mdOf s ex md).1.specs, x.1 ∉ akeys p.xadd) :
+    runProbeOn D T (translateWith D o s e q md).1 p e = freshResult D T p := by
+  obtain ⟨hr, hx, _, _, _⟩ := reset_restores D o s e q md ex f he hok
+  apply clean_on_indep
+  rw [cleanOn_iff]
+  refine ⟨_, hx, hb, ?_, hns, ?_, rfl, hfound⟩
+  · rw [regCleanOn_iff]; intro k _; rw [hr, hb]
+  · rw [xmdClean_iff]; intro k _; right; simp [effXmd, alookup]
 
 /-- **One success heals the registry (partial).**  Take ANY state `s` — reached by any history
 whatsoever, with any leaked method types — in which no enum has been defined below a name the
